@@ -1,0 +1,557 @@
+//go:build verif
+
+// Contracts for govc (contract-based deductive verification); comments only.
+package node_info
+
+//@ import ri "github.com/NVIDIA/KAI-scheduler/pkg/scheduler/api/resource_info"
+
+// ---- per-GPU memory arithmetic (C02) ----------------------------------------------------------
+// GPU memory (MiB) a request needs on one device of this node: the explicit gpu-memory request, else the
+// fraction of the device memory (truncated towards zero by the int64 conversion).
+//@ define needMem(ni *NodeInfo, res *ri.ResourceRequirements) int = ite(res.gpuMemory > 0, res.gpuMemory, trunc(res.portion * real(ni.MemoryOfEveryGpuOnNode)))
+// a memory amount as a fraction of one device, rounded up to 2 decimals
+//@ define memFraction(ni *NodeInfo, memory int) real = real(ceil(real(memory) / real(ni.MemoryOfEveryGpuOnNode) * 100.0)) / 100.0
+// portion of one device a request needs on this node
+//@ define gpuPortion(ni *NodeInfo, res *ri.ResourceRequirements) real = ite(res.gpuMemory > 0, memFraction(ni, res.gpuMemory), res.portion)
+// a portion is valid if it is at most one device or a whole number of devices
+//@ define validPortion(ni *NodeInfo, res *ri.ResourceRequirements) bool = gpuPortion(ni, res) <= 1.0 || gpuPortion(ni, res) == real(trunc(gpuPortion(ni, res)))
+
+//@ func (*NodeInfo).GetResourceGpuMemory
+//@   props C01 C02 C14
+//@   requires ni != nil && res != nil
+//@   pure
+//@   ensures result == needMem(ni, res)
+//@ end
+
+//@ func (*NodeInfo).getGpuMemoryFractionalOnNode
+//@   props C01 C02 C14
+//@   requires ni != nil && ni.MemoryOfEveryGpuOnNode > 0
+//@   pure
+//@   ensures result == memFraction(ni, memory)
+//@ end
+
+//@ func (*NodeInfo).getResourceGpuPortion
+//@   props C01 C02 C14
+//@   requires ni != nil && res != nil && ni.MemoryOfEveryGpuOnNode > 0
+//@   pure
+//@   ensures result == gpuPortion(ni, res)
+//@ end
+
+//@ func (*NodeInfo).isValidGpuPortion
+//@   props C01 C02
+//@   requires ni != nil && res != nil && ni.MemoryOfEveryGpuOnNode > 0
+//@   pure
+//@   ensures result == validPortion(ni, res)
+//@ end
+
+// ---- per-GPU-group fit checks (C02) ----------------------------------------------------------
+// C02 (top-level): "the GPU-memory or fraction requests of the pods bound to [a GPU group] never add up to more than
+// the device": a bind on an existing group needs room in what is allocated now (memory of terminating sharers
+// is NOT counted as free), and a group unknown to the allocated map (only pipelined sharers) is never bindable.
+//@ define idleRoomOnGpu(ni *NodeInfo, res *ri.ResourceRequirements, g string) bool = g in ni.AllocatedSharedGPUsMemory && ni.AllocatedSharedGPUsMemory[g] + needMem(ni, res) <= ni.MemoryOfEveryGpuOnNode
+// room once the releasing sharers are gone (used for pipelining)
+//@ define roomOnGpu(ni *NodeInfo, res *ri.ResourceRequirements, g string) bool = ni.AllocatedSharedGPUsMemory[g] - ni.ReleasingSharedGPUsMemory[g] + needMem(ni, res) <= ni.MemoryOfEveryGpuOnNode
+//@ define allGpuReleased(ni *NodeInfo, g string) bool = ni.AllocatedSharedGPUsMemory[g] == ni.ReleasingSharedGPUsMemory[g]
+//@ define fitsGpuGroup(ni *NodeInfo, res *ri.ResourceRequirements, g string) bool = ni.UsedSharedGPUsMemory[g] != 0 && roomOnGpu(ni, res, g) && !allGpuReleased(ni, g)
+//@ define markedReleasing(ni *NodeInfo, g string) bool = g in ni.ReleasingSharedGPUs && ni.ReleasingSharedGPUs[g]
+// every sharer of the group is terminating
+//@ define gpuReleasingFromShared(ni *NodeInfo, g string) bool = g in ni.UsedSharedGPUsMemory && ni.UsedSharedGPUsMemory[g] != 0 && g in ni.ReleasingSharedGPUsMemory && ni.ReleasingSharedGPUsMemory[g] == ni.UsedSharedGPUsMemory[g]
+
+//@ func (*NodeInfo).EnoughIdleResourcesOnGpu
+//@   props C02
+//@   requires ni != nil && resources != nil
+//@   pure
+//@   ensures result == idleRoomOnGpu(ni, resources, gpuGroup)
+//@   ensures [top] result ==> ni.AllocatedSharedGPUsMemory[gpuGroup] + needMem(ni, resources) <= ni.MemoryOfEveryGpuOnNode
+//@ end
+
+//@ func (*NodeInfo).enoughResourcesOnGpu
+//@   props C02 C01
+//@   requires ni != nil && resources != nil
+//@   pure
+//@   ensures result == roomOnGpu(ni, resources, gpuGroup)
+//@ end
+
+//@ func (*NodeInfo).isAllGpuReleased
+//@   props C02 C01
+//@   requires ni != nil
+//@   pure
+//@   ensures result == allGpuReleased(ni, gpuGroup)
+//@ end
+
+//@ func (*NodeInfo).IsTaskFitOnGpuGroup
+//@   props C02 C01
+//@   requires ni != nil && resourceRequest != nil
+//@   pure
+//@   ensures result == fitsGpuGroup(ni, resourceRequest, gpuGroup)
+//@ end
+
+//@ func (*NodeInfo).isSharedGpuMarkedAsReleasing
+//@   props C02 C14
+//@   requires ni != nil
+//@   pure
+//@   ensures result == markedReleasing(ni, gpuGroup)
+//@ end
+
+//@ func (*NodeInfo).isGpuReleasingFromSharedTasks
+//@   props C02 C14
+//@   requires ni != nil
+//@   pure
+//@   ensures result == gpuReleasingFromShared(ni, gpuGroup)
+//@ end
+
+// Number of existing GPU groups the fractional request fits on, counted up to the number of devices asked for.
+// (A count of a filtered key set has no closed form in the spec language: bounds and the exact zero/non-zero case.)
+//@ func (*NodeInfo).fractionTaskGpusAllocatableDeviceCount
+//@   props C02 C01
+//@   requires ni != nil && pod != nil && pod.ResReq != nil
+//@   pure
+//@   loop 1
+//@     invariant 0 <= matchingGpuGroupsCount && (matchingGpuGroupsCount > 0 ==> matchingGpuGroupsCount < pod.ResReq.count)
+//@     invariant (matchingGpuGroupsCount == 0) == (forall g in visited :: !fitsGpuGroup(ni, pod.ResReq, g))
+//@     invariant forall g in visited :: g in ni.UsedSharedGPUsMemory
+//@   ensures 0 <= result && result <= max(pod.ResReq.count, 1)
+//@   ensures (result == 0) == (forall g in ni.UsedSharedGPUsMemory :: !fitsGpuGroup(ni, pod.ResReq, g))
+//@ end
+
+// ---- C01: does a task fit an amount of node resources -------------------------------------------
+// node object well-formed enough to be read (code-derived: nil-ness, and the per-GPU memory size is positive -
+// `getNodeGpuMemory` yields 0 for a gpu.memory label below 100, see report)
+//@ define nodeReadable(ni *NodeInfo) bool = ni != nil && ni.Idle != nil && ni.Releasing != nil && ni.Used != nil && ni.MemoryOfEveryGpuOnNode > 0
+//@ define taskReadable(task *pod_info.PodInfo) bool = task != nil && task.ResReq != nil
+
+// whole-GPU / MIG / cpu-only request: the complete request fits the amount
+//@ define fitsNodeRes(ni *NodeInfo, res *ri.ResourceRequirements, avail *ri.Resource) bool = validPortion(ni, res) && ri.fitsReq(res, avail)
+
+//@ func (*NodeInfo).lessEqualTaskToNodeResources
+//@   props C01
+//@   requires ni != nil && taskResources != nil && nodeResources != nil && ni.MemoryOfEveryGpuOnNode > 0
+//@   pure
+//@   ensures result == fitsNodeRes(ni, taskResources, nodeResources)
+//@ end
+
+// C01: "the CPU, memory, pod slots, whole GPUs and MIG/extended-resource instances requested ... never exceed":
+// a regular or MIG request must fit the amount completely; a fractional / gpu-memory request must fit cpu, memory and
+// scalars, have a valid portion, and find its devices among the whole GPUs of the amount plus existing groups with room.
+//@ func (*NodeInfo).isTaskAllocatableOnNonAllocatedResources
+//@   props C01 C02
+//@   requires nodeReadable(ni) && taskReadable(task) && nodeNonAllocatedResources != nil
+//@   pure
+//@   ensures (task.ResourceRequestType == "Regular" || task.ResourceRequestType == "MigInstance") ==> result == fitsNodeRes(ni, task.ResReq, nodeNonAllocatedResources)
+//@   ensures !(task.ResourceRequestType == "Regular" || task.ResourceRequestType == "MigInstance") && result ==> ri.fitsBase(task.ResReq.BaseResource, nodeNonAllocatedResources.BaseResource) && validPortion(ni, task.ResReq)
+//@   ensures !(task.ResourceRequestType == "Regular" || task.ResourceRequestType == "MigInstance") && result && floor(nodeNonAllocatedResources.gpus) < task.ResReq.count ==> exists g in ni.UsedSharedGPUsMemory :: fitsGpuGroup(ni, task.ResReq, g)
+//@   ensures !(task.ResourceRequestType == "Regular" || task.ResourceRequestType == "MigInstance") && ri.fitsBase(task.ResReq.BaseResource, nodeNonAllocatedResources.BaseResource) && validPortion(ni, task.ResReq) && floor(nodeNonAllocatedResources.gpus) >= task.ResReq.count ==> result
+//@   ensures !(task.ResourceRequestType == "Regular" || task.ResourceRequestType == "MigInstance") && task.ResReq.count == 1 ==> result == (ri.fitsBase(task.ResReq.BaseResource, nodeNonAllocatedResources.BaseResource) && validPortion(ni, task.ResReq) && floor(nodeNonAllocatedResources.gpus) + ite(exists g in ni.UsedSharedGPUsMemory :: fitsGpuGroup(ni, task.ResReq, g), 1, 0) >= 1)
+//@ end
+
+// ---- C14/C01: what a pod is charged to the (non-shared) node accounting ------------------------------
+// cpu, memory, every scalar and MIG instance of the accepted resources; GPUs = whole GPUs + DRA GPUs, but 0 for a pod that
+// received a shared (fractional) GPU: shared devices are accounted per GPU group (C02).
+//@ define acceptedReadable(task *pod_info.PodInfo) bool = task != nil && task.AcceptedResource != nil && task.AcceptedResource.scalarResources != nil
+//@ define chargedGpus(task *pod_info.PodInfo) real = ite(task.ResourceReceivedType == "Fraction", 0.0, ri.reqGpus(task.AcceptedResource.GpuResourceRequirement) + real(task.AcceptedResource.GetDraGpusCount()))
+//@ define chargedScalar(task *pod_info.PodInfo, k v1.ResourceName) int = ite(k in task.AcceptedResource.scalarResources, task.AcceptedResource.scalarResources[k], task.AcceptedResource.migResources[k])
+//@ define chargedHas(task *pod_info.PodInfo, k v1.ResourceName) bool = k in task.AcceptedResource.scalarResources || k in task.AcceptedResource.migResources
+
+//@ func getAcceptedTaskResourceWithoutSharedGPU
+//@   props C01 C14
+//@   requires acceptedReadable(task)
+//@   fresh
+//@   ensures result.milliCpu == task.AcceptedResource.milliCpu && result.memory == task.AcceptedResource.memory
+//@   ensures result.gpus == chargedGpus(task)
+//@   ensures fresh(result.scalarResources)
+//@   ensures forall k v1.ResourceName :: result.scalarResources[k] == chargedScalar(task, k) && (k in result.scalarResources <==> chargedHas(task, k))
+//@ end
+
+// ---- C02/C14: per-GPU-group accounting of shared (fractional) pods ---------------------------------------
+// code-derived well-formedness: the four per-group maps exist and are different objects; vectors have the layout length
+//@ define gpuMapsWF(ni *NodeInfo) bool = ni.UsedSharedGPUsMemory != nil && ni.ReleasingSharedGPUsMemory != nil && ni.AllocatedSharedGPUsMemory != nil && ni.ReleasingSharedGPUs != nil && ni.UsedSharedGPUsMemory != ni.ReleasingSharedGPUsMemory && ni.UsedSharedGPUsMemory != ni.AllocatedSharedGPUsMemory && ni.ReleasingSharedGPUsMemory != ni.AllocatedSharedGPUsMemory
+//@ define vecWF(ni *NodeInfo) bool = ni.VectorMap != nil && len(ni.IdleVector) == len(ni.VectorMap.resourceNames) && len(ni.UsedVector) == len(ni.VectorMap.resourceNames) && len(ni.ReleasingVector) == len(ni.VectorMap.resourceNames)
+//@ define resWF(ni *NodeInfo) bool = ni.Idle.scalarResources != nil && ni.Used.scalarResources != nil && ni.Releasing.scalarResources != nil && ni.Idle.scalarResources != ni.Used.scalarResources && ni.Idle.scalarResources != ni.Releasing.scalarResources && ni.Used.scalarResources != ni.Releasing.scalarResources && allocated(ni.Idle.scalarResources) && allocated(ni.Used.scalarResources) && allocated(ni.Releasing.scalarResources)
+//@ define nodeWF(ni *NodeInfo) bool = ni != nil && ni.Node != nil && ni.Idle != nil && ni.Releasing != nil && ni.Used != nil && ni.Allocatable != nil && ni.Idle != ni.Releasing && ni.Idle != ni.Used && ni.Used != ni.Releasing && resWF(ni) && gpuMapsWF(ni) && vecWF(ni) && ni.MemoryOfEveryGpuOnNode > 0
+
+//@ func (*NodeInfo).getNumberOfUsedSharedGPUs
+//@   props C02 C14
+//@   requires ni != nil
+//@   pure
+//@   loop 1
+//@     invariant numberOfSharedGPUs >= 0
+//@   ensures result >= 0
+//@ end
+
+//@ func (*NodeInfo).getNumberOfUsedGPUs
+//@   props C02 C14
+//@   requires ni != nil && ni.Used != nil
+//@   pure
+//@ end
+
+//@ func (*NodeInfo).GetNumberOfGPUsInNode
+//@   props C02 C14
+//@   requires ni != nil && ni.Node != nil && ni.Allocatable != nil
+//@   pure
+//@ end
+
+//@ func (*NodeInfo).markSharedGpuAsReleasing
+//@   props C02 C14
+//@   inline
+//@ end
+//@ func (*NodeInfo).unmarkSharedGpuAsReleasing
+//@   props C02 C14
+//@   inline
+//@ end
+
+//@ func (*NodeInfo).isPipelinedToReleasingGpu
+//@   props C02 C14
+//@   requires ni != nil && task != nil && task.ResReq != nil
+//@   pure
+//@   ensures result == (ni.UsedSharedGPUsMemory[gpuGroup] + needMem(ni, task.ResReq) == ni.ReleasingSharedGPUsMemory[gpuGroup] - needMem(ni, task.ResReq) || (ni.UsedSharedGPUsMemory[gpuGroup] == 0 && ni.ReleasingSharedGPUsMemory[gpuGroup] == 0))
+//@ end
+
+// C14/C02: a sharer of GPU group g with memory need m is accounted per status:
+//   every status: used[g] += m;  Releasing: releasing[g] += m, allocated[g] += m;  Pipelined: releasing[g] -= m;
+//   other (allocated/bound/running...): allocated[g] += m.
+// The releasing marker is set when all used memory of the group is releasing (with one whole GPU added to Releasing),
+// and cleared (one GPU taken from Releasing) when a non-releasing sharer arrives on a marked group.
+// Idle loses at most one whole GPU, and only when the group opens (count of shared groups has no closed form: see report).
+//@ func (*NodeInfo).addSharedTaskResourcesPerPodGroup
+//@   props C02 C14
+//@   requires nodeWF(ni) && task != nil && task.ResReq != nil
+//@   modifies ni.UsedSharedGPUsMemory[gpuGroup], ni.ReleasingSharedGPUsMemory[gpuGroup], ni.AllocatedSharedGPUsMemory[gpuGroup], ni.ReleasingSharedGPUs[gpuGroup], ni.Idle.gpus, ni.Releasing.gpus, ni.IdleVector[*], ni.ReleasingVector[*], sumIdleGPUs(ni), sumIdleGPUMem(ni), sumReleasingGPUs(ni), sumReleasingGPUMem(ni)
+//@   ensures [used] ni.UsedSharedGPUsMemory[gpuGroup] == old(ni.UsedSharedGPUsMemory[gpuGroup]) + needMem(ni, task.ResReq) && gpuGroup in ni.UsedSharedGPUsMemory
+//@   ensures [releasing] ni.ReleasingSharedGPUsMemory[gpuGroup] == old(ni.ReleasingSharedGPUsMemory[gpuGroup]) + ite(task.Status == pod_status.Releasing, needMem(ni, task.ResReq), ite(task.Status == pod_status.Pipelined, 0 - needMem(ni, task.ResReq), 0))
+//@   ensures [allocated] ni.AllocatedSharedGPUsMemory[gpuGroup] == old(ni.AllocatedSharedGPUsMemory[gpuGroup]) + ite(task.Status == pod_status.Pipelined, 0, needMem(ni, task.ResReq))
+//@   ensures [allocatedDom] gpuGroup in ni.AllocatedSharedGPUsMemory <==> (old(gpuGroup in ni.AllocatedSharedGPUsMemory) || task.Status != pod_status.Pipelined)
+//@   ensures [marker] markedReleasing(ni, gpuGroup) == ite(task.Status == pod_status.Releasing, old(markedReleasing(ni, gpuGroup)) || ni.UsedSharedGPUsMemory[gpuGroup] == ni.ReleasingSharedGPUsMemory[gpuGroup], ite(task.Status == pod_status.Pipelined, old(markedReleasing(ni, gpuGroup)), false))
+//@   ensures [releasingGpus] ni.Releasing.gpus == old(ni.Releasing.gpus) + ite(task.Status == pod_status.Releasing, ite(!old(markedReleasing(ni, gpuGroup)) && ni.UsedSharedGPUsMemory[gpuGroup] == ni.ReleasingSharedGPUsMemory[gpuGroup], 1.0, 0.0), ite(task.Status == pod_status.Pipelined, ite(old(ni.UsedSharedGPUsMemory[gpuGroup]) == old(ni.ReleasingSharedGPUsMemory[gpuGroup]), 0.0 - 1.0, 0.0), ite(old(markedReleasing(ni, gpuGroup)), 0.0 - 1.0, 0.0)))
+//@   ensures [idleGpus] ni.Idle.gpus == old(ni.Idle.gpus) || (ni.Idle.gpus == old(ni.Idle.gpus) - 1.0 && task.Status != pod_status.Pipelined && ite(task.Status == pod_status.Releasing, ni.UsedSharedGPUsMemory[gpuGroup] == ni.ReleasingSharedGPUsMemory[gpuGroup], old(ni.UsedSharedGPUsMemory[gpuGroup]) <= 0))
+//@   ensures nodeWF(ni)
+//@ end
+
+// C14/C02: removal mirrors the addition for every status (used[g] -= m; Releasing: releasing[g] -= m, allocated[g] -= m;
+// Pipelined: releasing[g] += m; other: allocated[g] -= m). Idle gains at most one whole GPU, only when the group closes.
+//@ func (*NodeInfo).removeSharedTaskResourcesPerPodGroup
+//@   props C02 C14
+//@   requires nodeWF(ni) && task != nil && task.ResReq != nil
+//@   modifies ni.UsedSharedGPUsMemory[gpuGroup], ni.ReleasingSharedGPUsMemory[gpuGroup], ni.AllocatedSharedGPUsMemory[gpuGroup], ni.ReleasingSharedGPUs[gpuGroup], ni.Idle.gpus, ni.Releasing.gpus, ni.IdleVector[*], ni.ReleasingVector[*], sumIdleGPUs(ni), sumIdleGPUMem(ni), sumReleasingGPUs(ni), sumReleasingGPUMem(ni)
+//@   ensures [used] ni.UsedSharedGPUsMemory[gpuGroup] == old(ni.UsedSharedGPUsMemory[gpuGroup]) - needMem(ni, task.ResReq)
+//@   ensures [releasing] ni.ReleasingSharedGPUsMemory[gpuGroup] == old(ni.ReleasingSharedGPUsMemory[gpuGroup]) - ite(task.Status == pod_status.Releasing, needMem(ni, task.ResReq), ite(task.Status == pod_status.Pipelined, 0 - needMem(ni, task.ResReq), 0))
+//@   ensures [allocated] ni.AllocatedSharedGPUsMemory[gpuGroup] == old(ni.AllocatedSharedGPUsMemory[gpuGroup]) - ite(task.Status == pod_status.Pipelined, 0, needMem(ni, task.ResReq))
+//@   ensures [marker] markedReleasing(ni, gpuGroup) == ite(task.Status == pod_status.Releasing, old(markedReleasing(ni, gpuGroup)) && ni.UsedSharedGPUsMemory[gpuGroup] > 0, ite(task.Status == pod_status.Pipelined, old(markedReleasing(ni, gpuGroup)), old(markedReleasing(ni, gpuGroup)) || gpuReleasingFromShared(ni, gpuGroup)))
+//@   ensures [releasingGpus] ni.Releasing.gpus == old(ni.Releasing.gpus) + ite(task.Status == pod_status.Releasing, ite(old(markedReleasing(ni, gpuGroup)) && ni.UsedSharedGPUsMemory[gpuGroup] <= 0, 0.0 - 1.0, 0.0), ite(task.Status == pod_status.Pipelined, ite(old(ni.UsedSharedGPUsMemory[gpuGroup]) == old(ni.ReleasingSharedGPUsMemory[gpuGroup]) || (ni.UsedSharedGPUsMemory[gpuGroup] == 0 && ni.ReleasingSharedGPUsMemory[gpuGroup] == 0), 1.0, 0.0), ite(!old(markedReleasing(ni, gpuGroup)) && gpuReleasingFromShared(ni, gpuGroup), 1.0, 0.0)))
+//@   ensures [idleGpus] ni.Idle.gpus == old(ni.Idle.gpus) || (ni.Idle.gpus == old(ni.Idle.gpus) + 1.0 && task.Status != pod_status.Pipelined && ni.UsedSharedGPUsMemory[gpuGroup] <= 0)
+//@   ensures nodeWF(ni)
+//@ end
+
+// groups a pod is attached to / pairwise distinct (C02: "N distinct devices")
+//@ define inGroups(task *pod_info.PodInfo, g string) bool = exists i int :: 0 <= i && i < len(task.GPUGroups) && task.GPUGroups[i] == g
+//@ define distinctGroups(task *pod_info.PodInfo) bool = forall i int, j int :: 0 <= i && i < j && j < len(task.GPUGroups) ==> task.GPUGroups[i] != task.GPUGroups[j]
+// per-group memory deltas of a sharer, by status
+//@ define relDelta(ni *NodeInfo, task *pod_info.PodInfo) int = ite(task.Status == pod_status.Releasing, needMem(ni, task.ResReq), ite(task.Status == pod_status.Pipelined, 0 - needMem(ni, task.ResReq), 0))
+//@ define allocDelta(ni *NodeInfo, task *pod_info.PodInfo) int = ite(task.Status == pod_status.Pipelined, 0, needMem(ni, task.ResReq))
+
+// C14/C02: a shared pod is accounted on each of its GPU groups and on no other group.
+//@ func (*NodeInfo).addSharedTaskResources
+//@   props C02 C14
+//@   requires nodeWF(ni) && task != nil && task.ResReq != nil
+//@   modifies ni.UsedSharedGPUsMemory[*], ni.ReleasingSharedGPUsMemory[*], ni.AllocatedSharedGPUsMemory[*], ni.ReleasingSharedGPUs[*], ni.Idle.gpus, ni.Releasing.gpus, ni.IdleVector[*], ni.ReleasingVector[*], sumIdleGPUs(ni), sumIdleGPUMem(ni), sumReleasingGPUs(ni), sumReleasingGPUMem(ni)
+//@   loop 1
+//@     invariant 0 - 1 <= rangeindex && rangeindex < len(task.GPUGroups) && nodeWF(ni)
+//@     invariant rangeindex == 0 - 1 ==> ni.Idle.gpus == old(ni.Idle.gpus) && ni.Releasing.gpus == old(ni.Releasing.gpus)
+//@     invariant forall r *ri.Resource :: r != ni.Idle && r != ni.Releasing ==> r.gpus == old(r.gpus)
+//@     invariant forall n *NodeInfo :: n != ni ==> sumIdleGPUs(n) == old(sumIdleGPUs(n)) && sumIdleGPUMem(n) == old(sumIdleGPUMem(n)) && sumReleasingGPUs(n) == old(sumReleasingGPUs(n)) && sumReleasingGPUMem(n) == old(sumReleasingGPUMem(n))
+//@     invariant forall m map[string]int64 :: m != ni.UsedSharedGPUsMemory && m != ni.ReleasingSharedGPUsMemory && m != ni.AllocatedSharedGPUsMemory ==> dom(m) == old(dom(m))
+//@     invariant forall m map[string]int64, k string :: m != ni.UsedSharedGPUsMemory && m != ni.ReleasingSharedGPUsMemory && m != ni.AllocatedSharedGPUsMemory ==> m[k] == old(m[k])
+//@     invariant forall m map[string]bool :: m != ni.ReleasingSharedGPUs ==> dom(m) == old(dom(m))
+//@     invariant forall m map[string]bool, k string :: m != ni.ReleasingSharedGPUs ==> m[k] == old(m[k])
+//@     invariant forall p *float64 :: !incells(p, ni.IdleVector) && !incells(p, ni.ReleasingVector) ==> *p == old(*p)
+//@   ensures [noop] task.ResourceReceivedType != "Fraction" ==> forall g string :: ni.UsedSharedGPUsMemory[g] == old(ni.UsedSharedGPUsMemory[g]) && ni.ReleasingSharedGPUsMemory[g] == old(ni.ReleasingSharedGPUsMemory[g]) && ni.AllocatedSharedGPUsMemory[g] == old(ni.AllocatedSharedGPUsMemory[g]) && markedReleasing(ni, g) == old(markedReleasing(ni, g)) && (g in ni.AllocatedSharedGPUsMemory <==> old(g in ni.AllocatedSharedGPUsMemory))
+//@   ensures [noopGpus] task.ResourceReceivedType != "Fraction" || len(task.GPUGroups) == 0 ==> ni.Idle.gpus == old(ni.Idle.gpus) && ni.Releasing.gpus == old(ni.Releasing.gpus)
+//@   ensures nodeWF(ni)
+//@ end
+
+//@ func (*NodeInfo).removeSharedTaskResources
+//@   props C02 C14
+//@   requires nodeWF(ni) && task != nil && task.ResReq != nil
+//@   modifies ni.UsedSharedGPUsMemory[*], ni.ReleasingSharedGPUsMemory[*], ni.AllocatedSharedGPUsMemory[*], ni.ReleasingSharedGPUs[*], ni.Idle.gpus, ni.Releasing.gpus, ni.IdleVector[*], ni.ReleasingVector[*], sumIdleGPUs(ni), sumIdleGPUMem(ni), sumReleasingGPUs(ni), sumReleasingGPUMem(ni)
+//@   loop 1
+//@     invariant 0 - 1 <= rangeindex && rangeindex < len(task.GPUGroups) && nodeWF(ni)
+//@     invariant rangeindex == 0 - 1 ==> ni.Idle.gpus == old(ni.Idle.gpus) && ni.Releasing.gpus == old(ni.Releasing.gpus)
+//@     invariant forall r *ri.Resource :: r != ni.Idle && r != ni.Releasing ==> r.gpus == old(r.gpus)
+//@     invariant forall n *NodeInfo :: n != ni ==> sumIdleGPUs(n) == old(sumIdleGPUs(n)) && sumIdleGPUMem(n) == old(sumIdleGPUMem(n)) && sumReleasingGPUs(n) == old(sumReleasingGPUs(n)) && sumReleasingGPUMem(n) == old(sumReleasingGPUMem(n))
+//@     invariant forall m map[string]int64 :: m != ni.UsedSharedGPUsMemory && m != ni.ReleasingSharedGPUsMemory && m != ni.AllocatedSharedGPUsMemory ==> dom(m) == old(dom(m))
+//@     invariant forall m map[string]int64, k string :: m != ni.UsedSharedGPUsMemory && m != ni.ReleasingSharedGPUsMemory && m != ni.AllocatedSharedGPUsMemory ==> m[k] == old(m[k])
+//@     invariant forall m map[string]bool :: m != ni.ReleasingSharedGPUs ==> dom(m) == old(dom(m))
+//@     invariant forall m map[string]bool, k string :: m != ni.ReleasingSharedGPUs ==> m[k] == old(m[k])
+//@     invariant forall p *float64 :: !incells(p, ni.IdleVector) && !incells(p, ni.ReleasingVector) ==> *p == old(*p)
+//@   ensures [noop] task.ResourceReceivedType != "Fraction" ==> forall g string :: ni.UsedSharedGPUsMemory[g] == old(ni.UsedSharedGPUsMemory[g]) && ni.ReleasingSharedGPUsMemory[g] == old(ni.ReleasingSharedGPUsMemory[g]) && ni.AllocatedSharedGPUsMemory[g] == old(ni.AllocatedSharedGPUsMemory[g]) && markedReleasing(ni, g) == old(markedReleasing(ni, g)) && (g in ni.AllocatedSharedGPUsMemory <==> old(g in ni.AllocatedSharedGPUsMemory))
+//@   ensures [noopGpus] task.ResourceReceivedType != "Fraction" || len(task.GPUGroups) == 0 ==> ni.Idle.gpus == old(ni.Idle.gpus) && ni.Releasing.gpus == old(ni.Releasing.gpus)
+//@   ensures nodeWF(ni)
+//@ end
+
+// ---- C01 top level: bind only what fits Idle ---------------------------------------------------------------
+// Storage-capacity checks are opaque for this verification (DESIGN C01: assumed): they read the node and the task only.
+//@ func (*NodeInfo).isTaskStorageAllocatable
+//@   props C01
+//@   trusted
+//@   note CSI storage-capacity check (loops over claims/capacities, multierr, fmt.Errorf) is outside the property; assumed read-only
+//@   requires ni != nil && task != nil
+//@   pure
+//@ end
+//@ func (*NodeInfo).isTaskStorageAllocatableOnReleasingOrIdle
+//@   props C01
+//@   trusted
+//@   note CSI storage-capacity check is outside the property; assumed read-only
+//@   requires ni != nil && task != nil
+//@   pure
+//@ end
+
+// a best-effort task requests nothing (no resources above the minimal quantities, no storage claims, no GPU memory)
+//@ define bestEffort(task *pod_info.PodInfo) bool = ri.reqEmpty(task.ResReq) && len(task.storageClaims) == 0 && task.ResourceRequestType != "GpuMemory"
+// the request fits the amount `avail` of this node (whole/MIG: completely; fractional: cpu/memory/scalars + devices)
+//@ define fitsAmount(ni *NodeInfo, task *pod_info.PodInfo, avail *ri.Resource) bool = ite(task.ResourceRequestType == "Regular" || task.ResourceRequestType == "MigInstance", fitsNodeRes(ni, task.ResReq, avail), ri.fitsBase(task.ResReq.BaseResource, avail.BaseResource) && validPortion(ni, task.ResReq) && (floor(avail.gpus) >= task.ResReq.count || exists g in ni.UsedSharedGPUsMemory :: fitsGpuGroup(ni, task.ResReq, g)))
+
+// C01 (top level): "Capacity held by pods that are only terminating ... is never handed to a bind": a task is allocatable
+// (bindable now) only if it is best-effort or its request fits what is *Idle* on the node - not Idle + Releasing.
+//@ func (*NodeInfo).IsTaskAllocatable
+//@   props C01
+//@   requires nodeReadable(ni) && taskReadable(task)
+//@   pure
+//@   ensures [top] result ==> bestEffort(task) || fitsAmount(ni, task, ni.Idle)
+//@   ensures [regularExact] !bestEffort(task) && (task.ResourceRequestType == "Regular" || task.ResourceRequestType == "MigInstance") && !fitsNodeRes(ni, task.ResReq, ni.Idle) ==> !result
+//@   ensures [bestEffortAlways] bestEffort(task) ==> result
+//@ end
+
+// Idle + Releasing, component-wise (a scalar whose sum is 0 is absent: Resource.Add drops zero entries)
+//@ define sumScalar(ni *NodeInfo, k v1.ResourceName) int = ni.Idle.scalarResources[k] + ni.Releasing.scalarResources[k]
+//@ define sumHas(ni *NodeInfo, k v1.ResourceName) bool = ite(k in ni.Releasing.scalarResources, sumScalar(ni, k) != 0, k in ni.Idle.scalarResources && ni.Idle.scalarResources[k] != 0)
+
+//@ func (*NodeInfo).NonAllocatedResources
+//@   props C01 C14
+//@   requires ni != nil && ni.Idle != nil && ni.Releasing != nil
+//@   requires allocated(ni.Idle.scalarResources) && allocated(ni.Releasing.scalarResources)   // heap closedness: maps reachable from the node exist before the call
+//@   fresh
+//@   ensures result.milliCpu == ni.Idle.milliCpu + ni.Releasing.milliCpu && result.memory == ni.Idle.memory + ni.Releasing.memory && result.gpus == ni.Idle.gpus + ni.Releasing.gpus
+//@   ensures forall k v1.ResourceName :: result.scalarResources[k] == sumScalar(ni, k) && (k in result.scalarResources <==> sumHas(ni, k))
+//@ end
+
+//@ func (*NodeInfo).NonAllocatedResource
+//@   props C01 C14
+//@   requires ni != nil && ni.Idle != nil && ni.Releasing != nil
+//@   pure
+//@   ensures result == ni.Idle.Get(resourceType) + ni.Releasing.Get(resourceType)
+//@ end
+
+// C01 (pipelining side): a task may be nominated on capacity that is idle or being released; whole-GPU/MIG requests
+// must fit Idle + Releasing completely.
+//@ func (*NodeInfo).IsTaskAllocatableOnReleasingOrIdle
+//@   props C01
+//@   requires nodeReadable(ni) && taskReadable(task)
+//@   ensures [cpuMem] result ==> task.ResReq.milliCpu <= ni.Idle.milliCpu + ni.Releasing.milliCpu && task.ResReq.memory <= ni.Idle.memory + ni.Releasing.memory
+//@   ensures [scalars] result ==> forall k in task.ResReq.scalarResources :: sumHas(ni, k) && task.ResReq.scalarResources[k] <= sumScalar(ni, k)
+//@   ensures [gpus] result && (task.ResourceRequestType == "Regular" || task.ResourceRequestType == "MigInstance") ==> ri.reqGpus(task.ResReq.GpuResourceRequirement) + real(task.ResReq.GetDraGpusCount()) <= ni.Idle.gpus + ni.Releasing.gpus
+//@   ensures [mig] result && (task.ResourceRequestType == "Regular" || task.ResourceRequestType == "MigInstance") ==> forall k in task.ResReq.migResources :: sumHas(ni, k) && task.ResReq.migResources[k] <= sumScalar(ni, k)
+//@   ensures [fraction] result && !(task.ResourceRequestType == "Regular" || task.ResourceRequestType == "MigInstance") ==> validPortion(ni, task.ResReq) && (floor(ni.Idle.gpus + ni.Releasing.gpus) >= task.ResReq.count || exists g in ni.UsedSharedGPUsMemory :: fitsGpuGroup(ni, task.ResReq, g))
+//@ end
+
+// ---- GPU capacity summaries (used by C05 node filtering) ---------------------------------------------------
+// Folds over the per-group maps and the MIG scalars (MIG profile-name parsing): no sum theory in the spec language.
+// They are ghost attributes of the node; every NodeInfo mutator under contract lists them in `modifies`.
+//@ ghost sumIdleGPUs(ni *NodeInfo) real
+//@ ghost sumIdleGPUMem(ni *NodeInfo) int
+//@ ghost sumReleasingGPUs(ni *NodeInfo) real
+//@ ghost sumReleasingGPUMem(ni *NodeInfo) int
+
+//@ func (*NodeInfo).GetSumOfIdleGPUs
+//@   props C05 C02
+//@   trusted
+//@   note assumed: idle GPUs = free part of shared groups + whole idle GPUs + MIG share (two map folds, MIG name parsing); value is the ghost attribute sumIdleGPUs/sumIdleGPUMem of the node
+//@   requires ni != nil && ni.Idle != nil
+//@   pure
+//@   ensures result0 == sumIdleGPUs(ni) && result1 == sumIdleGPUMem(ni)
+//@ end
+
+//@ func (*NodeInfo).GetSumOfReleasingGPUs
+//@   props C05 C02
+//@   trusted
+//@   note assumed: releasing GPUs = releasing part of shared groups + whole releasing GPUs + MIG share (two map folds, MIG name parsing); value is the ghost attribute sumReleasingGPUs/sumReleasingGPUMem of the node
+//@   requires ni != nil && ni.Releasing != nil
+//@   pure
+//@   ensures result0 == sumReleasingGPUs(ni) && result1 == sumReleasingGPUMem(ni)
+//@ end
+
+// ---- C14/C01: charging a pod to the node, by status -------------------------------------------------------------
+// "Non-pipelined incl. Releasing: Idle -= charged, Used += charged; Releasing additionally Releasing += charged;
+//  Pipelined: Releasing -= charged, Idle untouched; reservation pods: GPU component 0."
+//@ define isReservation(task *pod_info.PodInfo) bool = pod_info.isReservationPod(task.Pod)
+//@ define nodeChargedGpus(task *pod_info.PodInfo) real = ite(isReservation(task), 0.0, chargedGpus(task))
+//@ define idlePart(task *pod_info.PodInfo, x real) real = ite(task.Status == pod_status.Pipelined, 0.0, x)
+//@ define relPart(task *pod_info.PodInfo, x real) real = ite(task.Status == pod_status.Releasing, x, ite(task.Status == pod_status.Pipelined, 0.0 - x, 0.0))
+//@ define idlePartI(task *pod_info.PodInfo, x int) int = ite(task.Status == pod_status.Pipelined, 0, x)
+//@ define relPartI(task *pod_info.PodInfo, x int) int = ite(task.Status == pod_status.Releasing, x, ite(task.Status == pod_status.Pipelined, 0 - x, 0))
+//@ define taskChargeable(task *pod_info.PodInfo) bool = acceptedReadable(task) && task.ResReq != nil && task.Pod != nil
+
+//@ func (*NodeInfo).addTaskResources
+//@   props C01 C14 C02
+//@   requires nodeWF(ni) && taskChargeable(task)
+//@   modifies ni.Used.milliCpu, ni.Used.memory, ni.Used.gpus, ni.Used.scalarResources[*], ni.Idle.milliCpu, ni.Idle.memory, ni.Idle.gpus, ni.Idle.scalarResources[*], ni.Releasing.milliCpu, ni.Releasing.memory, ni.Releasing.gpus, ni.Releasing.scalarResources[*], ni.UsedVector[*], ni.IdleVector[*], ni.ReleasingVector[*], ni.UsedSharedGPUsMemory[*], ni.ReleasingSharedGPUsMemory[*], ni.AllocatedSharedGPUsMemory[*], ni.ReleasingSharedGPUs[*], sumIdleGPUs(ni), sumIdleGPUMem(ni), sumReleasingGPUs(ni), sumReleasingGPUMem(ni)
+//@   ensures [usedCpuMem] ni.Used.milliCpu == old(ni.Used.milliCpu) + task.AcceptedResource.milliCpu && ni.Used.memory == old(ni.Used.memory) + task.AcceptedResource.memory
+//@   ensures [idleCpuMem] ni.Idle.milliCpu == old(ni.Idle.milliCpu) - idlePart(task, task.AcceptedResource.milliCpu) && ni.Idle.memory == old(ni.Idle.memory) - idlePart(task, task.AcceptedResource.memory)
+//@   ensures [relCpuMem] ni.Releasing.milliCpu == old(ni.Releasing.milliCpu) + relPart(task, task.AcceptedResource.milliCpu) && ni.Releasing.memory == old(ni.Releasing.memory) + relPart(task, task.AcceptedResource.memory)
+//@   ensures [usedScalars] forall k v1.ResourceName :: ni.Used.scalarResources[k] == old(ni.Used.scalarResources[k]) + old(chargedScalar(task, k))
+//@   ensures [idleScalars] forall k v1.ResourceName :: ni.Idle.scalarResources[k] == old(ni.Idle.scalarResources[k]) - old(idlePartI(task, chargedScalar(task, k)))
+//@   ensures [relScalars] forall k v1.ResourceName :: ni.Releasing.scalarResources[k] == old(ni.Releasing.scalarResources[k]) + old(relPartI(task, chargedScalar(task, k)))
+//@   ensures [idleScalarDom] forall k v1.ResourceName :: k in ni.Idle.scalarResources <==> ite(old(chargedHas(task, k) && task.Status != pod_status.Pipelined), ni.Idle.scalarResources[k] != 0, old(k in ni.Idle.scalarResources))
+//@   ensures [usedGpus] ni.Used.gpus == old(ni.Used.gpus) + nodeChargedGpus(task)
+//@   ensures [idleGpus] task.ResourceReceivedType != "Fraction" ==> ni.Idle.gpus == old(ni.Idle.gpus) - idlePart(task, nodeChargedGpus(task))
+//@   ensures [relGpus] task.ResourceReceivedType != "Fraction" ==> ni.Releasing.gpus == old(ni.Releasing.gpus) + relPart(task, nodeChargedGpus(task))
+//@   ensures [sharedUntouched] task.ResourceReceivedType != "Fraction" ==> forall g string :: ni.UsedSharedGPUsMemory[g] == old(ni.UsedSharedGPUsMemory[g]) && ni.ReleasingSharedGPUsMemory[g] == old(ni.ReleasingSharedGPUsMemory[g]) && ni.AllocatedSharedGPUsMemory[g] == old(ni.AllocatedSharedGPUsMemory[g]) && markedReleasing(ni, g) == old(markedReleasing(ni, g))
+//@   ensures nodeWF(ni)
+//@ end
+
+// removal is the exact mirror of the addition (C14: "AddTask/RemoveTask symmetry")
+//@ func (*NodeInfo).removeTaskResources
+//@   props C01 C14 C02
+//@   requires nodeWF(ni) && taskChargeable(task)
+//@   modifies ni.Used.milliCpu, ni.Used.memory, ni.Used.gpus, ni.Used.scalarResources[*], ni.Idle.milliCpu, ni.Idle.memory, ni.Idle.gpus, ni.Idle.scalarResources[*], ni.Releasing.milliCpu, ni.Releasing.memory, ni.Releasing.gpus, ni.Releasing.scalarResources[*], ni.UsedVector[*], ni.IdleVector[*], ni.ReleasingVector[*], ni.UsedSharedGPUsMemory[*], ni.ReleasingSharedGPUsMemory[*], ni.AllocatedSharedGPUsMemory[*], ni.ReleasingSharedGPUs[*], sumIdleGPUs(ni), sumIdleGPUMem(ni), sumReleasingGPUs(ni), sumReleasingGPUMem(ni)
+//@   ensures [usedCpuMem] ni.Used.milliCpu == old(ni.Used.milliCpu) - task.AcceptedResource.milliCpu && ni.Used.memory == old(ni.Used.memory) - task.AcceptedResource.memory
+//@   ensures [idleCpuMem] ni.Idle.milliCpu == old(ni.Idle.milliCpu) + idlePart(task, task.AcceptedResource.milliCpu) && ni.Idle.memory == old(ni.Idle.memory) + idlePart(task, task.AcceptedResource.memory)
+//@   ensures [relCpuMem] ni.Releasing.milliCpu == old(ni.Releasing.milliCpu) - relPart(task, task.AcceptedResource.milliCpu) && ni.Releasing.memory == old(ni.Releasing.memory) - relPart(task, task.AcceptedResource.memory)
+//@   ensures [usedScalars] forall k v1.ResourceName :: ni.Used.scalarResources[k] == old(ni.Used.scalarResources[k]) - old(chargedScalar(task, k))
+//@   ensures [idleScalars] forall k v1.ResourceName :: ni.Idle.scalarResources[k] == old(ni.Idle.scalarResources[k]) + old(idlePartI(task, chargedScalar(task, k)))
+//@   ensures [relScalars] forall k v1.ResourceName :: ni.Releasing.scalarResources[k] == old(ni.Releasing.scalarResources[k]) - old(relPartI(task, chargedScalar(task, k)))
+//@   ensures [idleScalarDom] forall k v1.ResourceName :: k in ni.Idle.scalarResources <==> ite(old(chargedHas(task, k) && task.Status != pod_status.Pipelined), ni.Idle.scalarResources[k] != 0, old(k in ni.Idle.scalarResources))
+//@   ensures [usedGpus] ni.Used.gpus == old(ni.Used.gpus) - nodeChargedGpus(task)
+//@   ensures [idleGpus] task.ResourceReceivedType != "Fraction" ==> ni.Idle.gpus == old(ni.Idle.gpus) + idlePart(task, nodeChargedGpus(task))
+//@   ensures [relGpus] task.ResourceReceivedType != "Fraction" ==> ni.Releasing.gpus == old(ni.Releasing.gpus) - relPart(task, nodeChargedGpus(task))
+//@   ensures [sharedUntouched] task.ResourceReceivedType != "Fraction" ==> forall g string :: ni.UsedSharedGPUsMemory[g] == old(ni.UsedSharedGPUsMemory[g]) && ni.ReleasingSharedGPUsMemory[g] == old(ni.ReleasingSharedGPUsMemory[g]) && ni.AllocatedSharedGPUsMemory[g] == old(ni.AllocatedSharedGPUsMemory[g]) && markedReleasing(ni, g) == old(markedReleasing(ni, g))
+//@   ensures nodeWF(ni)
+//@ end
+
+// ---- AddTask / RemoveTask / UpdateTask ------------------------------------------------------------------------
+// accepted resources of a pod that occupies the node: the request itself (cpu, memory, scalars), GPU part by kind
+//@ func (*NodeInfo).setAcceptedResources
+//@   props C01 C14 C02 C13
+//@   requires ni != nil && ni.MemoryOfEveryGpuOnNode > 0 && pi != nil && pi.ResReq != nil
+//@   modifies pi.AcceptedResource, pi.ResourceReceivedType
+//@   ensures [inactive] !pod_status.IsActiveUsedStatus(pi.Status) ==> pi.AcceptedResource == old(pi.AcceptedResource) && pi.ResourceReceivedType == old(pi.ResourceReceivedType)
+//@   ensures [fresh] pod_status.IsActiveUsedStatus(pi.Status) ==> fresh(pi.AcceptedResource) && (pi.ResReq.scalarResources != nil ==> fresh(pi.AcceptedResource.scalarResources))
+//@   ensures [base] pod_status.IsActiveUsedStatus(pi.Status) ==> pi.AcceptedResource.milliCpu == pi.ResReq.milliCpu && pi.AcceptedResource.memory == pi.ResReq.memory && (forall k v1.ResourceName :: pi.AcceptedResource.scalarResources[k] == pi.ResReq.scalarResources[k] && (k in pi.AcceptedResource.scalarResources <==> k in pi.ResReq.scalarResources))
+//@   ensures [kind] pod_status.IsActiveUsedStatus(pi.Status) ==> pi.ResourceReceivedType == ite(pi.ResourceRequestType == "MigInstance", "MigInstance", ite(pi.ResourceRequestType == "Fraction" || pi.ResourceRequestType == "GpuMemory", "Fraction", "Regular"))
+//@   ensures [fraction] pod_status.IsActiveUsedStatus(pi.Status) && (pi.ResourceRequestType == "Fraction" || pi.ResourceRequestType == "GpuMemory") ==> pi.AcceptedResource.count == pi.ResReq.count && pi.AcceptedResource.portion == gpuPortion(ni, pi.ResReq) && pi.AcceptedResource.gpuMemory == needMem(ni, pi.ResReq)
+//@   ensures [mig] pod_status.IsActiveUsedStatus(pi.Status) && pi.ResourceRequestType == "MigInstance" ==> pi.AcceptedResource.migResources == pi.ResReq.migResources && pi.AcceptedResource.count == 0 && pi.AcceptedResource.portion == 0.0
+//@ end
+
+// Storage accounting (CSI capacities) is outside C01/C02/C14 (DESIGN: storage-capacity checks are opaque).
+//@ func (*NodeInfo).addTaskStorage
+//@   props C01 C14 C13
+//@   trusted
+//@   note writes only StorageCapacityInfo.ProvisionedPVCs maps of the node's accessible capacities (storage accounting, outside the properties); modelled as no effect on any location the contracts mention
+//@   requires ni != nil && task != nil
+//@   pure
+//@ end
+//@ func (*NodeInfo).removeTaskStorage
+//@   props C01 C14 C13
+//@   trusted
+//@   note deletes only from StorageCapacityInfo.ProvisionedPVCs maps (storage accounting, outside the properties); modelled as no effect on any location the contracts mention
+//@   requires ni != nil && task != nil
+//@   pure
+//@ end
+
+// a task that can be handed to AddTask/RemoveTask/UpdateTask (code-derived nil-ness; PodInfo constructors establish it)
+//@ define taskWF(task *pod_info.PodInfo) bool = task != nil && task.Pod != nil && task.ResReq != nil && task.ResReq.scalarResources != nil && task.AcceptedResource != nil && task.AcceptedResource.scalarResources != nil
+// the maps of the task's request are not the node's own accounting maps
+//@ define notNodeMap(ni *NodeInfo, m map[v1.ResourceName]int64) bool = m != ni.Idle.scalarResources && m != ni.Used.scalarResources && m != ni.Releasing.scalarResources
+//@ define taskSeparate(ni *NodeInfo, task *pod_info.PodInfo) bool = notNodeMap(ni, task.ResReq.scalarResources) && notNodeMap(ni, task.ResReq.migResources) && notNodeMap(ni, task.AcceptedResource.scalarResources) && notNodeMap(ni, task.AcceptedResource.migResources)
+//@ define podsWF(ni *NodeInfo) bool = ni.PodInfos != nil && ni.LegacyMIGTasks != nil && ni.PodAffinityInfo != nil
+
+// C14: AddTask charges the pod (by its status, see addTaskResources) and records a copy under its key; it fails, leaving the
+// node accounting untouched, iff the key is already present (unless a shared-GPU pod is consolidated to another GPU).
+//@ func (*NodeInfo).addTask
+//@   props C01 C14 C02 C13
+//@   requires nodeWF(ni) && podsWF(ni) && taskWF(task) && taskSeparate(ni, task)
+//@   modifies task.AcceptedResource, task.ResourceReceivedType, ni.PodInfos[*], ni.LegacyMIGTasks[*], ni.Used.milliCpu, ni.Used.memory, ni.Used.gpus, ni.Used.scalarResources[*], ni.Idle.milliCpu, ni.Idle.memory, ni.Idle.gpus, ni.Idle.scalarResources[*], ni.Releasing.milliCpu, ni.Releasing.memory, ni.Releasing.gpus, ni.Releasing.scalarResources[*], ni.UsedVector[*], ni.IdleVector[*], ni.ReleasingVector[*], ni.UsedSharedGPUsMemory[*], ni.ReleasingSharedGPUsMemory[*], ni.AllocatedSharedGPUsMemory[*], ni.ReleasingSharedGPUs[*], sumIdleGPUs(ni), sumIdleGPUMem(ni), sumReleasingGPUs(ni), sumReleasingGPUMem(ni)
+//@   ensures [fails] (result != nil) == (old(pod_info.podKeyOf(task.Pod) in ni.PodInfos) && !(allowTaskToExistOnDifferentGPU && task.ResourceReceivedType == "Fraction"))
+//@   ensures [failsUntouched] result != nil ==> ni.Used.milliCpu == old(ni.Used.milliCpu) && ni.Used.memory == old(ni.Used.memory) && ni.Used.gpus == old(ni.Used.gpus) && ni.Idle.milliCpu == old(ni.Idle.milliCpu) && ni.Idle.memory == old(ni.Idle.memory) && ni.Idle.gpus == old(ni.Idle.gpus) && ni.Releasing.milliCpu == old(ni.Releasing.milliCpu) && ni.Releasing.memory == old(ni.Releasing.memory) && ni.Releasing.gpus == old(ni.Releasing.gpus)
+//@   ensures [failsUntouchedScalars] result != nil ==> forall k v1.ResourceName :: ni.Used.scalarResources[k] == old(ni.Used.scalarResources[k]) && ni.Idle.scalarResources[k] == old(ni.Idle.scalarResources[k]) && ni.Releasing.scalarResources[k] == old(ni.Releasing.scalarResources[k]) && (k in ni.Idle.scalarResources <==> old(k in ni.Idle.scalarResources))
+//@   ensures [recorded] result == nil ==> pod_info.podKeyOf(task.Pod) in ni.PodInfos && ni.PodInfos[pod_info.podKeyOf(task.Pod)] != nil && ni.PodInfos[pod_info.podKeyOf(task.Pod)] != task && ni.PodInfos[pod_info.podKeyOf(task.Pod)].Status == task.Status && ni.PodInfos[pod_info.podKeyOf(task.Pod)].Pod == task.Pod
+//@   ensures [otherPods] forall k common_info.PodID :: k != pod_info.podKeyOf(task.Pod) ==> ni.PodInfos[k] == old(ni.PodInfos[k]) && (k in ni.PodInfos <==> old(k in ni.PodInfos))
+//@   ensures [usedCpuMem] result == nil ==> ni.Used.milliCpu == old(ni.Used.milliCpu) + task.AcceptedResource.milliCpu && ni.Used.memory == old(ni.Used.memory) + task.AcceptedResource.memory
+//@   ensures [idleCpuMem] result == nil ==> ni.Idle.milliCpu == old(ni.Idle.milliCpu) - idlePart(task, task.AcceptedResource.milliCpu) && ni.Idle.memory == old(ni.Idle.memory) - idlePart(task, task.AcceptedResource.memory)
+//@   ensures [relCpuMem] result == nil ==> ni.Releasing.milliCpu == old(ni.Releasing.milliCpu) + relPart(task, task.AcceptedResource.milliCpu) && ni.Releasing.memory == old(ni.Releasing.memory) + relPart(task, task.AcceptedResource.memory)
+//@   ensures [usedGpus] result == nil ==> ni.Used.gpus == old(ni.Used.gpus) + nodeChargedGpus(task)
+//@   ensures [idleGpus] result == nil && task.ResourceReceivedType != "Fraction" ==> ni.Idle.gpus == old(ni.Idle.gpus) - idlePart(task, nodeChargedGpus(task))
+//@   ensures [relGpus] result == nil && task.ResourceReceivedType != "Fraction" ==> ni.Releasing.gpus == old(ni.Releasing.gpus) + relPart(task, nodeChargedGpus(task))
+//@   ensures [accepted] pod_status.IsActiveUsedStatus(task.Status) ==> task.AcceptedResource.milliCpu == task.ResReq.milliCpu && task.AcceptedResource.memory == task.ResReq.memory && (forall k v1.ResourceName :: task.AcceptedResource.scalarResources[k] == old(task.ResReq.scalarResources[k]))
+//@   ensures nodeWF(ni) && podsWF(ni) && taskWF(task)
+//@ end
+
+//@ func (*NodeInfo).AddTask
+//@   props C01 C14 C02 C13
+//@   requires nodeWF(ni) && podsWF(ni) && taskWF(task) && taskSeparate(ni, task)
+//@   modifies task.AcceptedResource, task.ResourceReceivedType, ni.PodInfos[*], ni.LegacyMIGTasks[*], ni.Used.milliCpu, ni.Used.memory, ni.Used.gpus, ni.Used.scalarResources[*], ni.Idle.milliCpu, ni.Idle.memory, ni.Idle.gpus, ni.Idle.scalarResources[*], ni.Releasing.milliCpu, ni.Releasing.memory, ni.Releasing.gpus, ni.Releasing.scalarResources[*], ni.UsedVector[*], ni.IdleVector[*], ni.ReleasingVector[*], ni.UsedSharedGPUsMemory[*], ni.ReleasingSharedGPUsMemory[*], ni.AllocatedSharedGPUsMemory[*], ni.ReleasingSharedGPUs[*], sumIdleGPUs(ni), sumIdleGPUMem(ni), sumReleasingGPUs(ni), sumReleasingGPUMem(ni)
+//@   ensures [fails] (result != nil) == old(pod_info.podKeyOf(task.Pod) in ni.PodInfos)
+//@   ensures [failsUntouched] result != nil ==> ni.Used.milliCpu == old(ni.Used.milliCpu) && ni.Used.memory == old(ni.Used.memory) && ni.Used.gpus == old(ni.Used.gpus) && ni.Idle.milliCpu == old(ni.Idle.milliCpu) && ni.Idle.memory == old(ni.Idle.memory) && ni.Idle.gpus == old(ni.Idle.gpus) && ni.Releasing.milliCpu == old(ni.Releasing.milliCpu) && ni.Releasing.memory == old(ni.Releasing.memory) && ni.Releasing.gpus == old(ni.Releasing.gpus)
+//@   ensures [failsUntouchedScalars] result != nil ==> forall k v1.ResourceName :: ni.Used.scalarResources[k] == old(ni.Used.scalarResources[k]) && ni.Idle.scalarResources[k] == old(ni.Idle.scalarResources[k]) && ni.Releasing.scalarResources[k] == old(ni.Releasing.scalarResources[k]) && (k in ni.Idle.scalarResources <==> old(k in ni.Idle.scalarResources))
+//@   ensures [recorded] result == nil ==> pod_info.podKeyOf(task.Pod) in ni.PodInfos && ni.PodInfos[pod_info.podKeyOf(task.Pod)] != nil && ni.PodInfos[pod_info.podKeyOf(task.Pod)] != task && ni.PodInfos[pod_info.podKeyOf(task.Pod)].Status == task.Status && ni.PodInfos[pod_info.podKeyOf(task.Pod)].Pod == task.Pod
+//@   ensures [otherPods] forall k common_info.PodID :: k != pod_info.podKeyOf(task.Pod) ==> ni.PodInfos[k] == old(ni.PodInfos[k]) && (k in ni.PodInfos <==> old(k in ni.PodInfos))
+//@   ensures [usedCpuMem] result == nil ==> ni.Used.milliCpu == old(ni.Used.milliCpu) + task.AcceptedResource.milliCpu && ni.Used.memory == old(ni.Used.memory) + task.AcceptedResource.memory
+//@   ensures [idleCpuMem] result == nil ==> ni.Idle.milliCpu == old(ni.Idle.milliCpu) - idlePart(task, task.AcceptedResource.milliCpu) && ni.Idle.memory == old(ni.Idle.memory) - idlePart(task, task.AcceptedResource.memory)
+//@   ensures [relCpuMem] result == nil ==> ni.Releasing.milliCpu == old(ni.Releasing.milliCpu) + relPart(task, task.AcceptedResource.milliCpu) && ni.Releasing.memory == old(ni.Releasing.memory) + relPart(task, task.AcceptedResource.memory)
+//@   ensures [usedGpus] result == nil ==> ni.Used.gpus == old(ni.Used.gpus) + nodeChargedGpus(task)
+//@   ensures [idleGpus] result == nil && task.ResourceReceivedType != "Fraction" ==> ni.Idle.gpus == old(ni.Idle.gpus) - idlePart(task, nodeChargedGpus(task))
+//@   ensures [relGpus] result == nil && task.ResourceReceivedType != "Fraction" ==> ni.Releasing.gpus == old(ni.Releasing.gpus) + relPart(task, nodeChargedGpus(task))
+//@   ensures [accepted] pod_status.IsActiveUsedStatus(task.Status) ==> task.AcceptedResource.milliCpu == task.ResReq.milliCpu && task.AcceptedResource.memory == task.ResReq.memory && (forall k v1.ResourceName :: task.AcceptedResource.scalarResources[k] == old(task.ResReq.scalarResources[k]))
+//@   ensures nodeWF(ni) && podsWF(ni) && taskWF(task)
+//@ end
+
+// same as AddTask, but a pod that received a shared GPU may already be on the node (it is re-recorded, not rejected)
+//@ func (*NodeInfo).ConsolidateSharedPodInfoToDifferentGPU
+//@   props C14 C02 C13
+//@   requires nodeWF(ni) && podsWF(ni) && taskWF(ti) && taskSeparate(ni, ti)
+//@   modifies ti.AcceptedResource, ti.ResourceReceivedType, ni.PodInfos[*], ni.LegacyMIGTasks[*], ni.Used.milliCpu, ni.Used.memory, ni.Used.gpus, ni.Used.scalarResources[*], ni.Idle.milliCpu, ni.Idle.memory, ni.Idle.gpus, ni.Idle.scalarResources[*], ni.Releasing.milliCpu, ni.Releasing.memory, ni.Releasing.gpus, ni.Releasing.scalarResources[*], ni.UsedVector[*], ni.IdleVector[*], ni.ReleasingVector[*], ni.UsedSharedGPUsMemory[*], ni.ReleasingSharedGPUsMemory[*], ni.AllocatedSharedGPUsMemory[*], ni.ReleasingSharedGPUs[*], sumIdleGPUs(ni), sumIdleGPUMem(ni), sumReleasingGPUs(ni), sumReleasingGPUMem(ni)
+//@   ensures [fails] (result != nil) == (old(pod_info.podKeyOf(ti.Pod) in ni.PodInfos) && ti.ResourceReceivedType != "Fraction")
+//@   ensures [usedCpuMem] result == nil ==> ni.Used.milliCpu == old(ni.Used.milliCpu) + ti.AcceptedResource.milliCpu && ni.Used.memory == old(ni.Used.memory) + ti.AcceptedResource.memory
+//@   ensures [usedGpus] result == nil ==> ni.Used.gpus == old(ni.Used.gpus) + nodeChargedGpus(ti)
+//@   ensures [otherPods] forall k common_info.PodID :: k != pod_info.podKeyOf(ti.Pod) ==> ni.PodInfos[k] == old(ni.PodInfos[k]) && (k in ni.PodInfos <==> old(k in ni.PodInfos))
+//@   ensures nodeWF(ni) && podsWF(ni) && taskWF(ti)
+//@ end
+
+// the copy of the pod recorded on the node under the pod's key
+//@ define storedTask(ni *NodeInfo, ti *pod_info.PodInfo) *pod_info.PodInfo = ni.PodInfos[pod_info.podKeyOf(ti.Pod)]
+//@ define storedOK(ni *NodeInfo, ti *pod_info.PodInfo) bool = pod_info.podKeyOf(ti.Pod) in ni.PodInfos ==> taskWF(storedTask(ni, ti)) && taskSeparate(ni, storedTask(ni, ti))
+
+// C14: RemoveTask un-charges the *recorded copy* of the pod (by the copy's status and accepted resources) and forgets it;
+// it fails, leaving the node untouched, iff the pod is not recorded.
+//@ func (*NodeInfo).RemoveTask
+//@   props C01 C14 C02 C13
+//@   requires nodeWF(ni) && podsWF(ni) && ti != nil && ti.Pod != nil && storedOK(ni, ti)
+//@   modifies ni.PodInfos[*], ni.Used.milliCpu, ni.Used.memory, ni.Used.gpus, ni.Used.scalarResources[*], ni.Idle.milliCpu, ni.Idle.memory, ni.Idle.gpus, ni.Idle.scalarResources[*], ni.Releasing.milliCpu, ni.Releasing.memory, ni.Releasing.gpus, ni.Releasing.scalarResources[*], ni.UsedVector[*], ni.IdleVector[*], ni.ReleasingVector[*], ni.UsedSharedGPUsMemory[*], ni.ReleasingSharedGPUsMemory[*], ni.AllocatedSharedGPUsMemory[*], ni.ReleasingSharedGPUs[*], sumIdleGPUs(ni), sumIdleGPUMem(ni), sumReleasingGPUs(ni), sumReleasingGPUMem(ni)
+//@   ensures [notFound] !old(pod_info.podKeyOf(ti.Pod) in ni.PodInfos) ==> result != nil && ni.Used.milliCpu == old(ni.Used.milliCpu) && ni.Used.memory == old(ni.Used.memory) && ni.Used.gpus == old(ni.Used.gpus) && ni.Idle.milliCpu == old(ni.Idle.milliCpu) && ni.Idle.memory == old(ni.Idle.memory) && ni.Idle.gpus == old(ni.Idle.gpus) && ni.Releasing.milliCpu == old(ni.Releasing.milliCpu) && ni.Releasing.memory == old(ni.Releasing.memory) && ni.Releasing.gpus == old(ni.Releasing.gpus)
+//@   ensures [forgotten] !(pod_info.podKeyOf(ti.Pod) in ni.PodInfos)
+//@   ensures [otherPods] forall k common_info.PodID :: k != pod_info.podKeyOf(ti.Pod) ==> ni.PodInfos[k] == old(ni.PodInfos[k]) && (k in ni.PodInfos <==> old(k in ni.PodInfos))
+//@   ensures [usedCpuMem] old(pod_info.podKeyOf(ti.Pod) in ni.PodInfos) ==> ni.Used.milliCpu == old(ni.Used.milliCpu) - old(storedTask(ni, ti)).AcceptedResource.milliCpu && ni.Used.memory == old(ni.Used.memory) - old(storedTask(ni, ti)).AcceptedResource.memory
+//@   ensures [idleCpuMem] old(pod_info.podKeyOf(ti.Pod) in ni.PodInfos) ==> ni.Idle.milliCpu == old(ni.Idle.milliCpu) + idlePart(old(storedTask(ni, ti)), old(storedTask(ni, ti)).AcceptedResource.milliCpu) && ni.Idle.memory == old(ni.Idle.memory) + idlePart(old(storedTask(ni, ti)), old(storedTask(ni, ti)).AcceptedResource.memory)
+//@   ensures [relCpuMem] old(pod_info.podKeyOf(ti.Pod) in ni.PodInfos) ==> ni.Releasing.milliCpu == old(ni.Releasing.milliCpu) - relPart(old(storedTask(ni, ti)), old(storedTask(ni, ti)).AcceptedResource.milliCpu) && ni.Releasing.memory == old(ni.Releasing.memory) - relPart(old(storedTask(ni, ti)), old(storedTask(ni, ti)).AcceptedResource.memory)
+//@   ensures [usedGpus] old(pod_info.podKeyOf(ti.Pod) in ni.PodInfos) ==> ni.Used.gpus == old(ni.Used.gpus) - nodeChargedGpus(old(storedTask(ni, ti)))
+//@   ensures [idleGpus] old(pod_info.podKeyOf(ti.Pod) in ni.PodInfos) && old(storedTask(ni, ti)).ResourceReceivedType != "Fraction" ==> ni.Idle.gpus == old(ni.Idle.gpus) + idlePart(old(storedTask(ni, ti)), nodeChargedGpus(old(storedTask(ni, ti))))
+//@   ensures [relGpus] old(pod_info.podKeyOf(ti.Pod) in ni.PodInfos) && old(storedTask(ni, ti)).ResourceReceivedType != "Fraction" ==> ni.Releasing.gpus == old(ni.Releasing.gpus) - relPart(old(storedTask(ni, ti)), nodeChargedGpus(old(storedTask(ni, ti))))
+//@   ensures nodeWF(ni) && podsWF(ni)
+//@ end
+
+// C14: UpdateTask = RemoveTask (recorded copy, old status) followed by AddTask (argument, new status): the net effect is the
+// difference of the two charges. Note (report): RemoveTask returns the pod-affinity error *after* un-charging, so a non-nil
+// result with the pod recorded before means the pod has been dropped from the accounting.
+//@ func (*NodeInfo).UpdateTask
+//@   props C01 C14 C02 C13
+//@   requires nodeWF(ni) && podsWF(ni) && taskWF(ti) && taskSeparate(ni, ti) && storedOK(ni, ti)
+//@   modifies ti.AcceptedResource, ti.ResourceReceivedType, ni.PodInfos[*], ni.LegacyMIGTasks[*], ni.Used.milliCpu, ni.Used.memory, ni.Used.gpus, ni.Used.scalarResources[*], ni.Idle.milliCpu, ni.Idle.memory, ni.Idle.gpus, ni.Idle.scalarResources[*], ni.Releasing.milliCpu, ni.Releasing.memory, ni.Releasing.gpus, ni.Releasing.scalarResources[*], ni.UsedVector[*], ni.IdleVector[*], ni.ReleasingVector[*], ni.UsedSharedGPUsMemory[*], ni.ReleasingSharedGPUsMemory[*], ni.AllocatedSharedGPUsMemory[*], ni.ReleasingSharedGPUs[*], sumIdleGPUs(ni), sumIdleGPUMem(ni), sumReleasingGPUs(ni), sumReleasingGPUMem(ni)
+//@   ensures [notFound] !old(pod_info.podKeyOf(ti.Pod) in ni.PodInfos) ==> result != nil && ni.Used.milliCpu == old(ni.Used.milliCpu) && ni.Used.memory == old(ni.Used.memory) && ni.Used.gpus == old(ni.Used.gpus) && ni.Idle.milliCpu == old(ni.Idle.milliCpu) && ni.Idle.memory == old(ni.Idle.memory) && ni.Idle.gpus == old(ni.Idle.gpus) && ni.Releasing.milliCpu == old(ni.Releasing.milliCpu) && ni.Releasing.memory == old(ni.Releasing.memory) && ni.Releasing.gpus == old(ni.Releasing.gpus)
+//@   ensures [otherPods] forall k common_info.PodID :: k != pod_info.podKeyOf(ti.Pod) ==> ni.PodInfos[k] == old(ni.PodInfos[k]) && (k in ni.PodInfos <==> old(k in ni.PodInfos))
+//@   ensures [recorded] result == nil ==> pod_info.podKeyOf(ti.Pod) in ni.PodInfos && ni.PodInfos[pod_info.podKeyOf(ti.Pod)] != nil && ni.PodInfos[pod_info.podKeyOf(ti.Pod)].Status == ti.Status
+//@   ensures [usedCpuMem] result == nil ==> ni.Used.milliCpu == old(ni.Used.milliCpu) - old(storedTask(ni, ti).AcceptedResource.milliCpu) + ti.AcceptedResource.milliCpu && ni.Used.memory == old(ni.Used.memory) - old(storedTask(ni, ti).AcceptedResource.memory) + ti.AcceptedResource.memory
+//@   ensures [idleCpu] result == nil ==> ni.Idle.milliCpu == old(ni.Idle.milliCpu) + old(idlePart(storedTask(ni, ti), storedTask(ni, ti).AcceptedResource.milliCpu)) - idlePart(ti, ti.AcceptedResource.milliCpu)
+//@   ensures [idleMem] result == nil ==> ni.Idle.memory == old(ni.Idle.memory) + old(idlePart(storedTask(ni, ti), storedTask(ni, ti).AcceptedResource.memory)) - idlePart(ti, ti.AcceptedResource.memory)
+//@   ensures [relCpu] result == nil ==> ni.Releasing.milliCpu == old(ni.Releasing.milliCpu) - old(relPart(storedTask(ni, ti), storedTask(ni, ti).AcceptedResource.milliCpu)) + relPart(ti, ti.AcceptedResource.milliCpu)
+//@   ensures [usedGpus] result == nil ==> ni.Used.gpus == old(ni.Used.gpus) - old(nodeChargedGpus(storedTask(ni, ti))) + nodeChargedGpus(ti)
+//@   ensures [idleGpus] result == nil && old(storedTask(ni, ti).ResourceReceivedType) != "Fraction" && ti.ResourceReceivedType != "Fraction" ==> ni.Idle.gpus == old(ni.Idle.gpus) + old(idlePart(storedTask(ni, ti), nodeChargedGpus(storedTask(ni, ti)))) - idlePart(ti, nodeChargedGpus(ti))
+//@   ensures nodeWF(ni) && podsWF(ni) && taskWF(ti)
+//@ end
